@@ -1313,6 +1313,7 @@ func boundaryCases(full bool) {
 	if !full {
 		cfgs = cfgs[:5]
 	}
+	rotationCases(cfgs)
 	iv, ex := int64(60e9), int64(600e9)
 	offs := []int64{iv - 1, iv, iv + 1, 2*iv - 1, 2 * iv, 2*iv + 1, ex - 1, ex, ex + 1, ex + iv + 1, 1e9, 1}
 	revs := []string{"-", "ik0", "sk", "both"}
@@ -1368,6 +1369,43 @@ func boundaryCases(full bool) {
 					}
 				}
 			}
+		}
+	}
+}
+
+// rotationCases: a long-lived session whose system key expires while a younger intermediate key of
+// its partition is still within its own lifetime; after the inline rotation old records are read
+// again and new ones written (the "latest" bookkeeping of the key cache must not move backwards).
+func rotationCases(cfgs [][3]string) {
+	for _, cfg := range cfgs {
+		for _, gap := range []int64{61e9, 1e9, 121e9} {
+			w := newWorld()
+			fmt.Fprintln(out, "new")
+			w.exec(fmt.Sprintf("fac 0 %s sk=%s ik=%s shared=%s", facDefault, cfg[0], cfg[1], cfg[2]))
+			w.exec("sess 0 0 0")
+			w.exec("enc 0 1 flt=-") // drr 0: SK1, IK(p0)
+			w.exec("adv 300000000000")
+			w.exec("sess 0 1 1")
+			w.exec("enc 1 2 flt=-") // drr 1: IK(p1) created 300 s after SK1
+			w.exec("enc 1 3 flt=-") // drr 2
+			w.exec("adv 301000000000") // SK1 (and IK(p0)) expired, IK(p1) not
+			w.exec("enc 1 4 flt=-")    // drr 3: inline rotation
+			w.exec(fmt.Sprintf("adv %d", gap))
+			w.exec("dec 1 1 flt=- mut=-") // an old record of this partition
+			w.exec("enc 1 5 flt=-")       // drr 4
+			w.exec("adv 30000000000")
+			w.exec("dec 1 2 flt=- mut=-")
+			w.exec("enc 1 6 flt=-")
+			w.exec("dec 1 3 flt=- mut=-")
+			w.exec("adv 61000000000")
+			w.exec("enc 1 7 flt=-")
+			w.exec("enc 0 8 flt=-") // the other partition rotates too
+			w.exec("dec 0 0 flt=- mut=-")
+			w.exec("enc 0 9 flt=-")
+			w.exec("sess 0 2 1") // a fresh session: old record first, then a write
+			w.exec("dec 2 1 flt=- mut=-")
+			w.exec("enc 2 10 flt=-")
+			w.exec("end")
 		}
 	}
 }
